@@ -395,4 +395,46 @@ class Concurrent(SubCheck):
         io_selftest(env)
 
 
-SUBCHECKS = [Sequential(), Concurrent()]
+class ProcessConcurrent(Concurrent):
+    name = 'concurrent_processes'
+
+    def examples(self, tier):
+        return 30 if tier == 'quick' else 1500
+
+    def execute(self, case, env):
+        import diskcache
+
+        from ..procsched import run_scheduled_procs
+
+        def setup(path):
+            base = diskcache.Cache(path, timeout=0, eviction_policy='none', disk_min_file_size=8)
+            ix = diskcache.Index.fromcache(base)
+            for k, v in case['init']:
+                ix[k] = mkv(v)
+            return base
+
+        def make_client(path, shared, i):
+            c = diskcache.Cache(path, timeout=0)
+            c._sql
+            return diskcache.Index.fromcache(c)
+
+        finals = [('getitem', 'x'), ('getitem', 'y'), ('len',), ('popitem', False), ('popitem', False)]
+        calls, run = run_scheduled_procs(env, case['progs'], case['schedule'], setup, make_client, do_conc, 'C12', final_ops=finals)
+        if run.limit_hit:
+            return {'nontrivial': False, 'classes': ['step-limit']}
+        mark_interleaved(calls, run.trace)
+        for c in calls:
+            if c.result[0] == 'exc' and c.result[1] != 'KeyError':
+                raise Violation('C12/unexpected-exception/%s' % c.result[1], 'call %r\n%s' % (c, fmt(calls)))
+        init_state = tuple(case['init'])
+        if linearize(calls, init_state, conc_apply, lambda s: s) is None:
+            raise Violation('C12/linearizability/processes', 'no sequential order explains these results (initial %r):\n%s' % (init_state, fmt(calls)))
+        nontrivial = any(
+            a.op[0] == 'getitem' and b.op[0] == 'set' and a.op[1] == b.op[1] and a.client != b.client and overlaps(a, b) and (a.interleaved or b.interleaved)
+            for a in calls
+            for b in calls
+        )
+        return {'nontrivial': nontrivial, 'classes': ['processes=%d' % len(case['progs'])]}
+
+
+SUBCHECKS = [Sequential(), Concurrent(), ProcessConcurrent()]
